@@ -110,7 +110,9 @@ impl BaseElement {
         let z = (s_hi << 32) - s_hi;
         let (res, over) = s_lo.overflowing_add(z);
 
-        BaseElement::from_mont(res.wrapping_add(0u32.wrapping_sub(over as u32) as u64))
+        let res = res.wrapping_add(0u32.wrapping_sub(over as u32) as u64);
+        // res is congruent to the product but may be in [M, 2^64): reduce it into [0, M)
+        BaseElement::from_mont(if res >= M { res - M } else { res })
     }
 }
 
